@@ -249,8 +249,19 @@ def case_allometry(m, spec, eq, rec):
 
 def case_error(m, spec, eq, rec):
     sympy, pm, semeq = _W['sympy'], _W['pm'], _W['semeq']
-    f = {'additive': pm.set_additive_error_model, 'proportional': pm.set_proportional_error_model,
-         'combined': pm.set_combined_error_model, 'power': lambda mm: pm.set_power_on_ruv(pm.set_proportional_error_model(mm))}[spec]
+    # spec: 'setter' or 'pre>setter' / 'pre+ruviiv>setter': the start model first gets error model `pre` (and IIV on RUV)
+    pre = None
+    if '>' in spec:
+        pre, spec = spec.split('>')
+    setters = {'additive': pm.set_additive_error_model, 'proportional': pm.set_proportional_error_model,
+               'combined': pm.set_combined_error_model,
+               'power': lambda mm: pm.set_power_on_ruv(pm.set_proportional_error_model(mm))}
+    f = setters[spec]
+    if pre:
+        ruviiv = pre.endswith('+ruviiv')
+        m = setters[pre.split('+')[0]](m)
+        if ruviiv:
+            m = pm.set_iiv_on_ruv(m)
     m2 = f(m)
     d1, d2 = semeq.denote(m.statements), semeq.denote(m2.statements)
     y = sympy.Symbol(str(list(m.dependent_variables)[0]))
@@ -262,12 +273,17 @@ def case_error(m, spec, eq, rec):
     rec('error.prediction_unchanged', V(v), **(dict(info, before=str(f_old)[:200], after=str(f_new)[:200]) if v != 'equal' else {}))
     ynew = d2.env[y]
     th = [sympy.Symbol(n) for n in new_names(m, m2)]
+    # inter-individual variability on the residual error (ETA_RV1), where the model has it, scales every epsilon
+    g = sympy.Integer(1)
+    for n in m2.random_variables.etas.names:
+        if n.startswith('ETA_RV') and sympy.Symbol(n) in ynew.free_symbols:
+            g = sympy.exp(sympy.Symbol(n))
     if spec == 'additive' and len(eps2) == 1:
-        want = f_new + eps2[0]
+        want = f_new + eps2[0] * g
     elif spec == 'proportional' and len(eps2) == 1:
-        want = f_new + f_new * eps2[0]
+        want = f_new + f_new * eps2[0] * g
     elif spec == 'combined' and len(eps2) == 2:
-        want = f_new + f_new * eps2[0] + eps2[1]
+        want = f_new + f_new * eps2[0] * g + eps2[1] * g
     elif spec == 'power' and len(eps2) == 1:
         power = [t for t in th if 'power' in t.name.lower()]
         want = f_new + f_new ** power[0] * eps2[0] if power else None
@@ -531,6 +547,9 @@ def all_cases(thorough):
             cases.append((start, 'allometry', (c, 70)))
         for e in ('additive', 'proportional', 'combined', 'power'):
             cases.append((start, 'error', e))
+        for pre in ('additive', 'additive+ruviiv', 'proportional+ruviiv', 'combined', 'combined+ruviiv'):
+            for e in ('additive', 'proportional', 'combined'):
+                cases.append((start, 'error', f'{pre}>{e}'))
         for r in ('fo_abs', 'zo_abs', 'transits1', 'transits3', 'transits3>5', 'transits5>2', 'transits2>4'):
             cases.append((start, 'rates', r))
         occ = [c for c in ('FA1', 'VISI', 'OCC') if c in m.datainfo.names and not m.datainfo[c].drop][:1]
